@@ -130,6 +130,11 @@ impl AsyncRead for File {
         buf: &mut ReadBuf<'_>,
     ) -> Poll<io::Result<()>> {
         let me = self.get_mut();
+        match me.poll_inflight(cx) {
+            Poll::Pending => return Poll::Pending,
+            Poll::Ready(Err(e)) => return Poll::Ready(Err(e)),
+            Poll::Ready(Ok(())) => {}
+        }
         if me.rd.is_none() {
             let want = buf.remaining();
             if want == 0 {
@@ -155,6 +160,24 @@ impl AsyncRead for File {
     }
 }
 
+impl File {
+    /// Wait for the write that is still in flight (tokio's File hands every write to the
+    /// blocking pool and returns at once; the next operation, or flush, waits for it and
+    /// reports its error).
+    fn poll_inflight(&mut self, cx: &mut Context<'_>) -> Poll<io::Result<()>> {
+        if let Some(op) = self.wr.as_mut() {
+            match op.poll_op(cx) {
+                Poll::Pending => return Poll::Pending,
+                Poll::Ready(r) => {
+                    self.wr = None;
+                    dead_to_io(r)?;
+                }
+            }
+        }
+        Poll::Ready(Ok(()))
+    }
+}
+
 impl AsyncWrite for File {
     fn poll_write(
         self: Pin<&mut Self>,
@@ -162,33 +185,42 @@ impl AsyncWrite for File {
         data: &[u8],
     ) -> Poll<io::Result<usize>> {
         let me = self.get_mut();
-        if me.wr.is_none() {
-            if data.is_empty() {
-                return Poll::Ready(Ok(0));
-            }
-            let ofd = me.ofd;
-            let pos = if me.append { None } else { Some(me.pos) };
-            let v = data.to_vec();
-            me.wr = Some(AsyncOp::new(OpKind::Write, true, |_| true, move |st, rec| {
-                let pid = rec.pid;
-                st.sys_write(pid, ofd, pos, &v, rec)
-            }));
+        match me.poll_inflight(cx) {
+            Poll::Pending => return Poll::Pending,
+            Poll::Ready(Err(e)) => return Poll::Ready(Err(e)),
+            Poll::Ready(Ok(())) => {}
         }
-        match me.wr.as_mut().unwrap().poll_op(cx) {
-            Poll::Pending => Poll::Pending,
+        if data.is_empty() {
+            return Poll::Ready(Ok(0));
+        }
+        // like tokio::fs::File: copy the data, start the write in the background and return
+        // immediately; nothing but a later write / flush / shutdown waits for it
+        let ofd = me.ofd;
+        let pos = if me.append { None } else { Some(me.pos) };
+        let v = data.to_vec();
+        let mut op: WriteOp = AsyncOp::new(OpKind::Write, true, |_| true, move |st, rec| {
+            let pid = rec.pid;
+            st.sys_write(pid, ofd, pos, &v, rec)
+        });
+        match op.poll_op(cx) {
+            Poll::Pending => {
+                me.wr = Some(op);
+                me.pos += data.len() as u64;
+                Poll::Ready(Ok(data.len()))
+            }
             Poll::Ready(r) => {
-                me.wr = None;
+                // only when the process is dead
                 let (n, np) = dead_to_io(r)?;
                 me.pos = np;
                 Poll::Ready(Ok(n))
             }
         }
     }
-    fn poll_flush(self: Pin<&mut Self>, _cx: &mut Context<'_>) -> Poll<io::Result<()>> {
-        Poll::Ready(Ok(()))
+    fn poll_flush(self: Pin<&mut Self>, cx: &mut Context<'_>) -> Poll<io::Result<()>> {
+        self.get_mut().poll_inflight(cx)
     }
-    fn poll_shutdown(self: Pin<&mut Self>, _cx: &mut Context<'_>) -> Poll<io::Result<()>> {
-        Poll::Ready(Ok(()))
+    fn poll_shutdown(self: Pin<&mut Self>, cx: &mut Context<'_>) -> Poll<io::Result<()>> {
+        self.get_mut().poll_inflight(cx)
     }
 }
 
@@ -222,8 +254,15 @@ impl AsyncSeek for File {
 impl Drop for File {
     fn drop(&mut self) {
         self.rd = None;
-        self.wr = None;
         let ofd = self.ofd;
+        // Dropping a tokio File does NOT wait for the write in flight: the write still
+        // happens (the blocking task owns the descriptor), unless the process dies first.
+        if let Some(mut op) = self.wr.take() {
+            if let Some((sh, pid, id)) = op.detach() {
+                crate::kernel::defer_close_after(&sh, pid, id, ofd);
+                return;
+            }
+        }
         direct(OpKind::Close, move |st, rec| {
             let pid = rec.pid;
             st.sys_close(pid, ofd, rec);
